@@ -1,7 +1,10 @@
 #!/bin/sh
-# Builds the static Coq development (Base/Spec/Model/Proofs/Props) from files on disk.
+# Builds the static Coq development (coq/theories) from files on disk; offline.
 set -e
-cd "$(dirname "$0")/coq"
-coq_makefile -f _CoqProject -o Makefile >/dev/null
-timeout 3000 make -j16 >/dev/null 2>_make.err || { cat _make.err; exit 1; }
+cd "$(dirname "$0")"
+# forbidden constructs anywhere in the development
+if grep -rnE '\b(Admitted|admit|Axiom|Parameter|Conjecture|Admit Obligations)\b|Unset Guard|bypass_check|-type-in-type|-impredicative-set' coq/theories --include='*.v' | grep -v '^\S*:[0-9]*:\s*(\*'; then
+  echo "forbidden construct found"; exit 1
+fi
+PYTHONPATH="$PWD" /venv/bin/python -c "from lib import vcore; vcore.ensure_static_build()"
 echo "coq static build ok"
